@@ -1,4 +1,6 @@
 import BitbybitModel.Driver.Proto
+import BitbybitModel.Driver.Sexp
+import BitbybitModel.Symbolic.Ctx
 import BitbybitModel.Spec.Debug
 namespace Bb.Driver
 open Bb
@@ -331,6 +333,80 @@ def evalEnumOp (d : EnumDef) (ws : List String) : Option OpResult :=
     some { m := r, s := some s }
   | _ => none
 
+/-! ## translation validation of an emitted body (`nfcmp`) and its evaluation on the operations (`A`) -/
+
+/-- the model's body of item `item` of program `p`, the normaliser's context for it, and the field it belongs to -/
+def itemOf (p : Program) (item : String) : Option (Expr × Nf.Ctx × Option FieldDef) :=
+  let B := p.base
+  if item = "raw_value" then some (rawValueBody B, TV.rawValueCtx B, none)
+  else if item = "new_with_raw_value" then some (newWithRawBody B, TV.newWithRawCtx B, none)
+  else
+    match p.fields.find? (fun fd => fd.getter && fd.name == item) with
+    | some fd => (getterBody B fd).map (fun e => (e, TV.getterCtx B, some fd))
+    | none =>
+      match p.fields.find? (fun fd => fd.setter && (s!"with_{stripRaw fd.name}" == item || s!"set_{stripRaw fd.name}" == item)) with
+      | some fd => (setterBody B fd).map (fun e => (e, TV.setterCtx B fd, some fd))
+      | none => none
+
+def ectxOf (st : State) (ctx : Nf.Ctx) : ECtx :=
+  let (argTy, argUint) : Option ITy × Option Nat := match ctx.arg with
+    | .int t => (some t, none) | .uint n => (none, some n) | _ => (none, none)
+  let (rawTy, rawUint) : Option ITy × Option Nat := match ctx.arg with
+    | .custom (.int t) => (some t, none) | .custom (.uint n) => (none, some n) | _ => (none, none)
+  { rawTy := ctx.rawTy, argTy := argTy, argUint := argUint, argRawTy := rawTy, argRawUint := rawUint,
+    typeId := fun n => (st.find n).map (·.1) }
+
+/-- `nfcmp DECL ITEM <S-expression of the emitted body>` -/
+def nfcmp (st : State) (decl item sx : String) : State × String :=
+  match st.find decl with
+  | some (_, .bitfield _ p) =>
+    match itemOf p item with
+    | none => (st, s!"nfres {decl} {item} noitem")
+    | some (m, ctx, _) =>
+      match (parseSx sx).bind (elabSx (ectxOf st ctx) none) with
+      | none => (st, s!"nfres {decl} {item} untranslatable")
+      | some a =>
+        let st' := { st with actual := st.actual.insert (decl ++ " " ++ item) a }
+        if Nf.bodiesEquiv ctx a m then (st', s!"nfres {decl} {item} equal")
+        else
+          -- no common normal form: say which side has none
+          let probe := fun (e : Expr) => match e with
+            | .assertE _ b => (Nf.nf { ctx with index := some 0 } ({ ctx with index := some 0 } : Nf.Ctx).init b).isSome
+            | e => (Nf.nf ctx ctx.init e).isSome
+          (st', s!"nfres {decl} {item} {if probe a && probe m then "differ" else "unknown"}")
+  | _ => (st, s!"nfres {decl} {item} nodecl")
+
+/-- the emitted body registered for an item, evaluated like the model's -/
+def aGet (st : State) (chk : Bool) (p : Program) (fd : FieldDef) (idx : String) (raw : Nat) : Option R :=
+  (st.actual[p.name ++ " " ++ fd.name]?).map fun e =>
+    eval (customEnv st) chk { raw := rawVal p.base raw, index := idxVal idx } e
+
+def aWith (st : State) (chk : Bool) (p : Program) (fd : FieldDef) (kind idx : String) (raw : Nat) (v : Val) : Option R :=
+  (st.actual[p.name ++ " " ++ kind ++ "_" ++ stripRaw fd.name]?).map fun e =>
+    eval (customEnv st) chk { raw := rawVal p.base raw, index := idxVal idx, fieldValue := v } e
+
+/-- `A`: the result of a `get` / `with` / `set` operation through the emitted body, if one is registered -/
+def evalActual (st : State) (chk : Bool) (p : Program) (ws : List String) : Option String :=
+  match ws with
+  | ["get", f, idx, raw] =>
+    match findField p f, parseNum raw with
+    | some fd, some r =>
+      (storageOfExposed st chk p r).bind fun sr => (aGet st chk p fd idx sr).map (showR st)
+    | _, _ => none
+  | [kind, f, idx, raw, v] =>
+    if kind ≠ "with" ∧ kind ≠ "set" then none else
+    match findField p f, parseNum raw with
+    | some fd, some r =>
+      match argVal st fd v, storageOfExposed st chk p r with
+      | some val, some sr =>
+        (aWith st chk p fd kind idx sr val).map fun res =>
+          match res with
+          | .ok (.int _ n) => showR st (exposedOf st chk p n)
+          | other => showR st other
+      | _, _ => none
+    | _, _ => none
+  | _ => none
+
 /-! ## the step function -/
 
 structure Out where
@@ -405,6 +481,10 @@ def step (st : State) (chk : Bool) (line : String) : State × Bool × List Strin
       | some e => ({ st.push (.rejected d.name) with curDecl := none, curArgsErr := none }, chk, [s!"verdict {d.name} {showReject e}"])
       | none => let (st', out) := finishDecl st d; (st', chk, out)
     | none => (st, chk, ["bad-line " ++ line])
+  | "nfcmp" :: decl :: item :: _ =>
+    let sx := " ".intercalate ((line.splitOn " ").drop 3)
+    let (st', out) := nfcmp st decl item sx
+    (st', chk, [out])
   | "op" :: name :: rest =>
     -- split at " = "
     match line.splitOn " = " with
@@ -416,6 +496,9 @@ def step (st : State) (chk : Bool) (line : String) : State × Bool × List Strin
         | some (_, .enum _ d) => evalEnumOp d ws
         | _ => none
       let _ := rest
+      let resA : Option String := match st.find name with
+        | some (_, .bitfield _ p) => if st.actual.isEmpty then none else evalActual st chk p ws
+        | _ => none
       match res with
       | none => (st, chk, ["bad-op " ++ line])
       | some r =>
@@ -427,14 +510,17 @@ def step (st : State) (chk : Bool) (line : String) : State × Bool × List Strin
              | ["ok", nTxt] => (match parseNum nTxt with | some n => (n &&& care) != expected | none => true)
              | _ => true, false)
           | none, none => (false, true)
+        let misA : Bool := match resA with | some a => a != rhs | none => false
         let st' := { st with
+          nOpsA := st.nOpsA + (if resA.isSome then 1 else 0), nMisA := st.nMisA + (if misA then 1 else 0),
           nOps := st.nOps + 1, nMisM := st.nMisM + (if misM then 1 else 0),
           nMisS := st.nMisS + (if misS then 1 else 0), nSkipS := st.nSkipS + (if skipS then 1 else 0) }
         let out := (if misM then [s!"mismatch M {r.m} :: {line}"] else []) ++
                    (if misS then [s!"mismatch S {r.s.getD (match r.sOutside with | some (c, e) => s!"uncovered-bits-kept:mask={toHex c}:value={toHex e}" | none => "")} :: {line}"] else [])
+        let out := out ++ (if misA then [s!"mismatch A {resA.getD ""} :: {line}"] else [])
         (st', chk, out)
     | [] => (st, chk, ["bad-op " ++ line])
-  | ["stats"] => (st, chk, [s!"stats ops={st.nOps} misM={st.nMisM} misS={st.nMisS} skipS={st.nSkipS}"])
+  | ["stats"] => (st, chk, [s!"stats ops={st.nOps} misM={st.nMisM} misS={st.nMisS} skipS={st.nSkipS} opsA={st.nOpsA} misA={st.nMisA}"])
   | _ => (st, chk, ["bad-line " ++ line])
 
 end Bb.Driver
